@@ -112,6 +112,8 @@ impl UpdateTrailingTrivia for TokenReference {
         ((t is Append && t->Append_0@.len() > 0) ==> tok_followed_by_ws(*r))
         // a newline appended behind the trailing trivia closes an open line comment
         && (t is Append && puts_on_new_line(t->Append_0@) ==> !tok_open(*r))
+        // Append puts the new trivia behind the trailing trivia the token has
+        && (t is Append ==> tr_trail(*r) == tr_trail(*self) + t->Append_0@)
         // appending trivia without a line comment among them does not open a token that was closed
         && (t is Append && (forall|i: int| 0 <= i < t->Append_0@.len() ==> !is_line_comment_tok(#[trigger] t->Append_0@[i])) ==> (tok_open(*r) ==> tok_open(*self)))
     }
